@@ -548,7 +548,7 @@ func ruleLimitAutocut(r *Run, p string) {
 					okFill := false
 					if isMk {
 						for _, ref := range *mk.Referrers() {
-							if ia, ok := ref.(*ssa.IndexAddr); ok && isRangeIndex(ia.Index) {
+							if ia, ok := ref.(*ssa.IndexAddr); ok && isAllIndex(ia.Index) {
 								for _, rr := range *ia.Referrers() {
 									if st, ok := rr.(*ssa.Store); ok && strings.Contains(c.S(st.Val), "GetScore(") && strings.Contains(c.S(st.Val), "P0[range]") {
 										okFill = true
@@ -601,7 +601,7 @@ func ruleLimitAutocut(r *Run, p string) {
 		// (i-1 needs i ≥ 1: guarded by the i == 0 skip)
 		okSkip := false
 		allInstrs(au, func(in ssa.Instruction) {
-			if bo, ok := in.(*ssa.BinOp); ok && bo.Op == token.EQL && isRangeIndex(bo.X) && isZeroConst(bo.Y) {
+			if bo, ok := in.(*ssa.BinOp); ok && bo.Op == token.EQL && isAllIndex(bo.X) && isZeroConst(bo.Y) {
 				okSkip = true
 			}
 			// or the traversal starts at 1: every diff[i-k] read is indexed by a counted loop variable with init ≥ 1
@@ -1122,6 +1122,20 @@ func ruleRanks(r *Run, rule string, fn *ssa.Function) {
 				if ia, ok := fa.X.(*ssa.IndexAddr); ok && ia.Index == ssa.Value(ph) {
 					okRank = true
 				}
+				// through a local copy of the element: ds := sorted[i]; ranks[ds.docID] = i
+				if al, ok := fa.X.(*ssa.Alloc); ok && isAllIndex(ph) {
+					if sv := singleStore(al); sv != nil {
+						if ia, ok := unloadAddr(sv).(*ssa.IndexAddr); ok && ia.Index == ssa.Value(ph) {
+							okRank = true
+						}
+					}
+				}
+			}
+			// through a copy of the element: ds := sorted[i]; ranks[ds.docID] = i
+			if fl, ok := mu.Key.(*ssa.Field); ok {
+				if ia, ok := unloadAddr(fl.X).(*ssa.IndexAddr); ok && ia.Index == ssa.Value(ph) && isAllIndex(ph) {
+					okRank = true
+				}
 			}
 		}
 	}
@@ -1452,9 +1466,18 @@ func ruleMerge(r *Run, p string) {
 		}
 		return "", false
 	})
+	// every update of the per-id map in that loop (first sighting and replacement may be two statements)
+	var sinks []*ssa.MapUpdate
+	for _, mu := range mapUpdatesOf(fn) {
+		if mu.Map == sink.Map && loop.Blocks[mu.Block()] {
+			sinks = append(sinks, mu)
+		}
+	}
 	bad, states := tableCheck([]string{"EX", "GT"}, rows, func(pr pathRow) string {
-		if pr.P.Has(sink) {
-			return "store"
+		for _, sk := range sinks {
+			if pr.P.Has(sk) {
+				return "store"
+			}
 		}
 		return "keep"
 	}, func(a map[string]bool) string {
@@ -1463,7 +1486,12 @@ func ruleMerge(r *Run, p string) {
 		}
 		return "keep"
 	})
-	okVal := c.S(sink.Key) == "P0[range].ID" && c.S(sink.Value) == newS
+	okVal := len(sinks) > 0
+	for _, sk := range sinks {
+		if c.S(sk.Key) != "P0[range].ID" || c.S(sk.Value) != newS {
+			okVal = false
+		}
+	}
 	if len(bad) > 0 || !okVal {
 		r.Bad(rule, "merge:table", w.InstrPos(sink)+" mergeResults", truncList(bad, 4)+fmt.Sprintf(" key=%s value=%s", c.S(sink.Key), c.S(sink.Value)))
 	} else {
